@@ -440,7 +440,7 @@ def _mcp_check(tier, seed):
         # line, at every byte alignment (anything that cuts the line at a fixed byte offset splits a character)
         wcls, script = dict(cls), []
         tools = ('parse_transactions', 'calculate_report', 'convert_to_dsl', 'explain_matching')
-        for k in range(20):
+        for k in range(36):
             note = 'куплено на закрытии торгов ' * 3 + 'é€' * 20 + 'x' * k
             bad = ('[{"date":"2024-01-15","ticker":"GLE","action":"BUY","amount":"100","price":"24.50","note":"' + note + '"},'
                    '{"date":"2024-06-20","ticker":"GLE","action":"SELL","amount":"5' + '0' * (k % 4) + '"},{"note":"' + 'дивиденды € ' * 20 + '"}]')
@@ -449,7 +449,8 @@ def _mcp_check(tier, seed):
                 # (note) the error, each shifted byte by byte, so that a window of any fixed width around the error column
                 # starts or ends inside a character
                 a, b = k % 6, (k * 5 + k // 6) % 7
-                bad = ('[{"date":"2024-01-15","ticker":"' + 'д' * 45 + 'x' * a + '","action":"HOLD","note":"' + 'y' * b + '€é' * 40 + '"}]')
+                wide = 'д' * 45 if k % 2 == 0 else '€' * 30      # 2- and 3-byte characters
+                bad = ('[{"date":"2024-01-15","ticker":"' + wide + 'x' * a + '","action":"HOLD","note":"' + 'y' * b + ('€é' * 40 if k % 3 else '€' * 60) + '"}]')
             args = {'transactions': bad}
             if tools[k % 4] == 'explain_matching':
                 args.update({'disposal_date': '2024-06-20', 'ticker': 'GLE'})
